@@ -105,3 +105,10 @@ Definition run_scenario (fx : bool) (fuel : nat) (ss : list stmt) : string :=
   lines (run_top fx fuel root_env ss init_state).
 Definition run_scenarios (fx : bool) (fuel : nat) (l : list (list stmt)) : string :=
   join (nl ++ "==" ++ nl) (List.map (run_scenario fx fuel) l).
+
+(* root.rs Root::reinit (RootHandle::dispose): dispose the root node -- user cleanups run -- then replace the
+   node table (ids restart), the tracker, the update queue, the batching flag, and create a fresh root node *)
+Definition reinit (fx : bool) (fuel : nat) (s : state) : res unit :=
+  bind_res (dispose fx fuel 0 s)
+           (fun _ s1 => Ok tt (State (nodes init_state) (next init_state) None (current init_state) [] false
+                                     (cells s1) (next_cell s1) (names init_state) (log s1))).
